@@ -5,8 +5,12 @@
    order regenerated from rdd.py into Gen/SaveOrder.v) on the partitions [xs], partition [x] being written
    as the bytes [render x], with max_retries [m], under the fault plan [p]:
      [wf p k]   = how the k-th call of Local.dump fails (None: it does not) -- before anything, after the
-                  directory was made, or torn after j bytes;
-     [cf p i a] = the computation of partition i fails on attempt a.
+                  directory was made, or torn after j bytes -- and [wc p k] the exception class it raises;
+     [cf p i a] = the computation of partition i fails on attempt a, raising class [cc p i a], lazily from a
+                  generator when [cl p i a];
+     classes [cls]: an ordinary Exception, OSError, StopIteration, GeneratorExit (not an Exception: not retried).
+   [from_write e] / [from_compute e]: e is an injected write / compute fault of any class, or the RuntimeError a
+   StopIteration turns into when it crosses a generator.
    [init_st f0 c0 lk]: target path in state [f0] (FAbsent | FFile bytes | FDir entries), [c0] dump calls made
    so far on this context, job lock [lk].  The result is (Ok tt | Err exception, final state); [s_hist] of the
    final state lists the file system after every dump call (every prefix of the effect sequence).
@@ -49,7 +53,7 @@ Proof. exact complete_dir_parts. Qed.
 Theorem C09_failure_no_marker : forall A render sv p m xs c0 e s',
   save A render sv p m xs (init_st FAbsent c0 false) = (Err e, s') ->
   child (s_fs s') NMarker = None
-  \/ (s_fs s' = complete_dir A render xs /\ e = EWrite /\ exists j, wf p (pred (s_calls s')) = Some (WTorn j)).
+  \/ (s_fs s' = complete_dir A render xs /\ from_write e /\ exists j, wf p (pred (s_calls s')) = Some (WTorn j)).
 Proof. exact failure_no_marker. Qed.
 (* when failed writes leave no file behind (before / after mkdir), without exception: *)
 Theorem C09_failure_no_marker_atomic : forall A render sv p m xs c0 e s',
@@ -69,14 +73,14 @@ Theorem C09_failure_is_injected_fault : forall A render sv p m xs f0 c0 e s',
   1 <= m ->
   save A render sv p m xs (init_st f0 c0 false) = (Err e, s') ->
   (e = EExists /\ fs_exists f0 = true)
-  \/ (e = EWrite /\ exists k, wf p k <> None)
-  \/ (e = ECompute /\ exists i a, cf p i a = true).
+  \/ (from_write e /\ exists k, wf p k <> None)
+  \/ (from_compute e /\ exists i a, cf p i a = true).
 Proof. exact failure_is_injected_fault. Qed.
 (* crash plan "the computation of partition i fails on every attempt" (whatever else the plan contains) *)
 Theorem C09_compute_failure_surfaces : forall A render sv p m xs c0 i r s',
   1 <= m -> i < length xs -> (forall a, 1 <= a <= m -> cf p i a = true) ->
   save A render sv p m xs (init_st FAbsent c0 false) = (r, s') ->
-  exists e, r = Err e /\ (e = ECompute \/ e = EWrite) /\ child (s_fs s') NMarker = None.
+  exists e, r = Err e /\ (from_compute e \/ from_write e) /\ child (s_fs s') NMarker = None.
 Proof. exact compute_failure_surfaces. Qed.
 (* crash plan "the k-th file write fails" (k < n: on each of its max_retries attempts) *)
 Theorem C09_write_failure_surfaces_part : forall A render sv p m xs c0 k r s',
@@ -84,7 +88,7 @@ Theorem C09_write_failure_surfaces_part : forall A render sv p m xs c0 k r s',
   (forall k', c0 <= k' < c0 + k -> wf p k' = None) ->
   (forall k', c0 + k <= k' < c0 + k + m -> wf p k' <> None) ->
   save A render sv p m xs (init_st FAbsent c0 false) = (r, s') ->
-  r = Err EWrite /\ s_calls s' = c0 + k + m /\ child (s_fs s') NMarker = None.
+  (exists e, r = Err e /\ from_write e) /\ c0 + k < s_calls s' <= c0 + k + m /\ child (s_fs s') NMarker = None.
 Proof. exact write_failure_surfaces_part. Qed.
 (* k = n: the marker write fails (it is not retried); all part files are there *)
 Theorem C09_write_failure_surfaces_marker : forall A render sv p m xs c0 r s',
@@ -92,15 +96,32 @@ Theorem C09_write_failure_surfaces_marker : forall A render sv p m xs c0 r s',
   (forall k', c0 <= k' < c0 + length xs -> wf p k' = None) ->
   wf p (c0 + length xs) <> None ->
   save A render sv p m xs (init_st FAbsent c0 false) = (r, s') ->
-  r = Err EWrite /\ s_calls s' = c0 + length xs + 1 /\
+  (exists e, r = Err e /\ from_write e) /\ s_calls s' = c0 + length xs + 1 /\
   forall i x, nth_error xs i = Some x -> child (s_fs s') (NPart i) = Some (render x).
 Proof. exact write_failure_surfaces_marker. Qed.
 (* single-partition save: its one write fails *)
 Theorem C09_write_failure_surfaces_single : forall A render sv p m x c0 r s',
   1 <= m -> (forall a, cf p 0 a = false) -> wf p c0 <> None ->
   save A render sv p m [x] (init_st FAbsent c0 false) = (r, s') ->
-  r = Err EWrite /\ s_calls s' = S c0.
+  (exists e, r = Err e /\ from_write e) /\ s_calls s' = S c0.
 Proof. exact write_failure_surfaces_single. Qed.
+
+(* ---- StopIteration: what the code does with it today ----
+   A StopIteration raised by a partition computation (every attempt; eagerly, lazily, or by next() on an empty
+   iterator inside the partition function), nothing else failing: the caller gets RuntimeError -- it crossed the
+   generator of Context._runJob_local (regenerated [runjob_local_kind = TaskGenerator]; a map object would let it
+   end the job silently) --, exactly the partitions before i were written, no marker. *)
+Theorem C09_compute_stop_surfaces_as_runtime_error : forall A render sv p m xs c0 i r s',
+  1 <= m -> i < length xs ->
+  (forall a, 1 <= a <= m -> cf p i a = true /\ cc p i a = KStop) ->
+  (forall i' a, i' <> i -> cf p i' a = false) -> (forall k, wf p k = None) ->
+  save A render sv p m xs (init_st FAbsent c0 false) = (r, s') ->
+  r = Err ERuntime /\ s_calls s' = c0 + (if length xs =? 1 then 0 else i) /\ child (s_fs s') NMarker = None.
+Proof. exact compute_stop_surfaces_as_runtime_error. Qed.
+(* for every plan and pre-state: a computation's StopIteration never reaches the caller as StopIteration *)
+Theorem C09_compute_stop_never_bare : forall A render sv p m xs f0 c0 lk e s',
+  save A render sv p m xs (init_st f0 c0 lk) = (Err e, s') -> e <> ECompute KStop.
+Proof. exact compute_stop_never_bare. Qed.
 
 (* ---- "and the context remains usable" ----
    After ANY save (successful, refused, failed anywhere) started with the lock free, the lock is free and a
@@ -142,14 +163,17 @@ Theorem C09_pickle_order : pickle_steps = [SCheckExists; SSingle; SRunJob; SMark
 Proof. exact pickle_steps_link. Qed.
 Theorem C09_lock_released_in_finally : runjob_lock_release = ReleaseFinally.
 Proof. exact lock_release_link. Qed.
+Theorem C09_tasks_run_in_a_generator : runjob_local_kind = TaskGenerator.
+Proof. exact local_kind_link. Qed.
 
 (* ---------------- non-vacuity: concrete instances of every hypothesis ---------------- *)
 Definition ex_parts : list (list bytes) := [[[97%N]]; [[98%N]; []]; []].     (* ['a'] ['b', ''] [] *)
 Definition plan_w (l : list (nat * wfault)) : plan :=
   mkplan (fun k => match find (fun e => Nat.eqb (fst e) k) l with Some e => Some (snd e) | None => None end)
-         (fun _ _ => false).
-Definition plan_c (l : list (nat * nat)) : plan :=
-  mkplan (fun _ => None) (fun i a => existsb (fun e => Nat.eqb (fst e) i && Nat.eqb (snd e) a) l).
+         (fun _ => KInjected) (fun _ _ => false) (fun _ _ => KInjected) (fun _ _ => false).
+Definition plan_c (c : cls) (lazy : bool) (l : list (nat * nat)) : plan :=
+  mkplan (fun _ => None) (fun _ => KInjected)
+         (fun i a => existsb (fun e => Nat.eqb (fst e) i && Nat.eqb (snd e) a) l) (fun _ _ => c) (fun _ _ => lazy).
 Definition run_text p m xs f0 := save (list bytes) render_text SvText p m xs (init_st f0 0 false).
 
 (* the three pre-states of the property all satisfy the hypothesis of C09_no_overwrite *)
@@ -171,22 +195,22 @@ Proof. vm_compute. repeat split. Qed.
 (* crash at the write of part 1 on every attempt: hypotheses of C09_write_failure_surfaces_part with k = 1, m = 2 *)
 Example crash_part :
   let '(r, s) := run_text (plan_w [(1, WMkdir); (2, WBefore)]) 2 ex_parts FAbsent in
-  r = Err EWrite /\ s_fs s = FDir [(NPart 0, [97; 10]%N)] /\ s_calls s = 3 /\ s_locked s = false.
+  r = Err (EWrite KInjected) /\ s_fs s = FDir [(NPart 0, [97; 10]%N)] /\ s_calls s = 3 /\ s_locked s = false.
 Proof. vm_compute. repeat split. Qed.
 (* crash at the marker write (k = n) *)
 Example crash_marker :
   let '(r, s) := run_text (plan_w [(3, WBefore)]) 2 ex_parts FAbsent in
-  r = Err EWrite /\ child (s_fs s) NMarker = None /\ child (s_fs s) (NPart 2) = Some [] /\ s_calls s = 4.
+  r = Err (EWrite KInjected) /\ child (s_fs s) NMarker = None /\ child (s_fs s) (NPart 2) = Some [] /\ s_calls s = 4.
 Proof. vm_compute. repeat split. Qed.
 (* the exception in C09_failure_no_marker is real: a torn marker write leaves the (empty = complete) marker *)
 Example torn_marker_write :
   let '(r, s) := run_text (plan_w [(3, WTorn 0)]) 2 ex_parts FAbsent in
-  r = Err EWrite /\ child (s_fs s) NMarker = Some [] /\ s_fs s = complete_dir _ render_text ex_parts.
+  r = Err (EWrite KInjected) /\ child (s_fs s) NMarker = Some [] /\ s_fs s = complete_dir _ render_text ex_parts.
 Proof. vm_compute. repeat split. Qed.
 (* partition 1 fails to compute on every attempt: hypotheses of C09_compute_failure_surfaces *)
 Example crash_compute :
-  let '(r, s) := run_text (plan_c [(1, 1); (1, 2)]) 2 ex_parts FAbsent in
-  r = Err ECompute /\ s_fs s = FDir [(NPart 0, [97; 10]%N)] /\ s_locked s = false /\
+  let '(r, s) := run_text (plan_c KInjected false [(1, 1); (1, 2)]) 2 ex_parts FAbsent in
+  r = Err (ECompute KInjected) /\ s_fs s = FDir [(NPart 0, [97; 10]%N)] /\ s_locked s = false /\
   fst (collect_job nat no_faults 3 [0; 1] s) = Ok tt.
 Proof. vm_compute. repeat split. Qed.
 (* single partition: one file, never a marker *)
@@ -203,3 +227,14 @@ Proof. vm_compute. reflexivity. Qed.
 Example part_name_example :
   name_string (NPart 7) = [112; 97; 114; 116; 45; 48; 48; 48; 48; 55]%N /\ valid_name (NPart 4321) /\ valid_name (NOther 4).
 Proof. split; [reflexivity|split]; [reflexivity|]. unfold valid_name. repeat constructor. Qed.
+(* StopIteration from partition 1 on every attempt (hypotheses of C09_compute_stop_surfaces_as_runtime_error):
+   RuntimeError at the caller, part 0 written, parts 1 and 2 not, no marker, lock free *)
+Example stop_iteration_in_task :
+  let '(r, s) := run_text (plan_c KStop false [(1, 1); (1, 2)]) 2 ex_parts FAbsent in
+  r = Err ERuntime /\ s_fs s = FDir [(NPart 0, [97; 10]%N)] /\ s_locked s = false.
+Proof. vm_compute. repeat split. Qed.
+(* GeneratorExit is not an Exception: one attempt only, although max_retries = 3 and only attempt 1 is faulted *)
+Example generator_exit_not_retried :
+  let '(r, s) := run_text (plan_c KGenExit true [(1, 1)]) 3 ex_parts FAbsent in
+  r = Err (ECompute KGenExit) /\ s_fs s = FDir [(NPart 0, [97; 10]%N)] /\ s_calls s = 1 /\ s_locked s = false.
+Proof. vm_compute. repeat split. Qed.
